@@ -159,6 +159,18 @@ func (i *Interpreter) executeAssign(stmt AssignStatement, env *Environment) (int
 	// defined in environment.go and returns BindingUser when no specific
 	// source is recorded; BindingPathParam and BindingQueryParam are the
 	// enum values for route-bound variables.
+	if src, ok := env.LocalSource(stmt.Target); ok && src == BindingRequestBuiltin {
+		// query, headers, input and auth are provided to every route, not
+		// declared by it: a declaration of the same name shadows them, as it
+		// does in compiled routes (the compiler's DefineBuiltin). Rejecting it
+		// made `$ query = ...` a 500 under --interpret only.
+		value, err := i.EvaluateExpression(stmt.Value, env)
+		if err != nil {
+			return nil, err
+		}
+		env.Define(stmt.Target, value)
+		return value, nil
+	}
 	if env.HasLocal(stmt.Target) {
 		if src, ok := env.LocalSource(stmt.Target); ok {
 			switch src {
